@@ -3,7 +3,11 @@
 
 package bal_slb
 
-import "github.com/bfenetworks/bfe/bfe_balance/backend"
+import (
+	"fmt"
+
+	"github.com/bfenetworks/bfe/bfe_balance/backend"
+)
 
 // VerifBackends returns the backends of the sub-cluster balancer in list order.
 // Harness-only accessor (added through the build overlay, never part of /repo).
@@ -13,4 +17,14 @@ func (brr *BalanceRR) VerifBackends() []*backend.BfeBackend {
 		r = append(r, b.backend)
 	}
 	return r
+}
+
+// VerifDebug describes the balancer's internal credit state (debug probes only;
+// no oracle reads it).
+func (brr *BalanceRR) VerifDebug() string {
+	s := ""
+	for _, b := range brr.backends {
+		s += fmt.Sprintf("[%s w=%d cur=%d ss=%v] ", b.backend.AddrInfo, b.weight, b.current, b.inSlowStart)
+	}
+	return s
 }
